@@ -215,9 +215,93 @@ HE_INV = r'''
 '''
 
 
+# ------------------------------------------------------------------ Schur helpers: the index contracts the driver assumes
+def schur_helpers(report):
+    types = r'''
+typedef struct { Index m_n; Mat m_T, m_U; _Bool m_computed; } SC;
+typedef struct { Scalar m_c, m_s; } Jacobi;
+#define T_(i, j) (*MAT_ELEM(&S->m_T, (i), (j)))
+'''
+    mem = ["m_n", "m_T", "m_U", "m_computed"]
+    inv = [("T and U are n x n", "1 <= S->m_n && S->m_n <= NMAXS && S->m_T.rows == S->m_n && S->m_T.cols == S->m_n && S->m_U.rows == S->m_n && S->m_U.cols == S->m_n")]
+    coeff = ("Tcoeff", r"\bm_T\.coeff(?:Ref)?\(", "T_(", {"min": 1})
+    epsr = ("eps", r"Eigen::NumTraits<Scalar>::epsilon\(\)", "SCALAR_EPS", {"min": 0})
+    out = []
+    alloc = "  SC Sv; SC *S = &Sv; S->m_n = nondet_Index(); __CPROVER_assume(0 <= S->m_n && S->m_n <= NMAXS); S->m_T = MAT_NEW(S->m_n, S->m_n); S->m_U = MAT_NEW(S->m_n, S->m_n); S->m_computed = 0;\n"
+    # find_small_subdiag
+    f = X.locate(SH, "find_small_subdiag", cls="UpperHessenbergSchur")
+    sp = FSpec("find_small_subdiag", "Index", [("SC *", "S"), ("Index", "iu"), ("Scalar", "near_0")], pre=inv + [("0 <= iu < n", "0 <= iu && iu < S->m_n")],
+               post=[("returns a row index of the active window: 0 <= il <= iu", "0 <= ret && ret <= iu")], frame=["S->m_T.cell"], real=SH + ":find_small_subdiag")
+    t, R = cgen.emit(f, "find_small_subdiag", ret_c="Index", self_type="SC", self_name="S", members=mem, param_types={"near_0": "Scalar"},
+                     pre_rules=[coeff, epsr, ("maxi", r"Eigen::numext::maxi<Scalar>\(", "VMAX(", {"max": 1})],
+                     loop_contracts={0: "__CPROVER_assigns(res, S->m_T.cell) __CPROVER_loop_invariant(0 <= res && res <= iu) __CPROVER_decreases(res)"}, contract=sp.frame_contract())
+    report["UpperHessenbergSchur::find_small_subdiag"] = R.fired
+    out.append(("schur.find_small_subdiag", types + t + sp.harness("h", alloc + "  Index iu = nondet_Index(); Scalar near_0 = nondet_Scalar();", "S, iu, near_0"), "find_small_subdiag", ["loop_invariant_step", "Eigen index assertion"]))
+    # split_off_two_rows
+    f = X.locate(SH, "split_off_two_rows", cls="UpperHessenbergSchur")
+    sp = FSpec("split_off_two_rows", "void", [("SC *", "S"), ("Index", "iu"), ("Scalar", "ex_shift")], pre=inv + [("1 <= iu < n", "1 <= iu && iu < S->m_n")], post=[],
+               frame=["S->m_T.cell", "S->m_U.cell"], real=SH + ":split_off_two_rows")
+    t, R = cgen.emit(f, "split_off_two_rows", ret_c="void", self_type="SC", self_name="S", members=mem, param_types={"ex_shift": "Scalar"},
+                     pre_rules=[coeff, ("rot", r"Eigen::JacobiRotation<Scalar> rot;", "Jacobi rot; rot.m_c = nondet_Scalar(); rot.m_s = nondet_Scalar();", {"max": 1}),
+                                ("givens", r"rot\.makeGivens\(([^;]+)\);", r"(void)(T_(iu, iu - 1));", {"max": 1}),
+                                ("left", r"m_T\.rightCols\(([^;()]+)\)\.applyOnTheLeft\(([^;,]+), ([^;,]+), rot\.adjoint\(\)\);",
+                                 r"NCOLS_CHECK(S->m_T, \1); __CPROVER_assert(0 <= (\2) && (\2) < S->m_T.rows && 0 <= (\3) && (\3) < S->m_T.rows, @Q@Eigen: applyOnTheLeft(p, q) row indices in range@Q@); MAT_TOUCH(S->m_T);", {"max": 1}),
+                                ("right", r"m_T\.topRows\(([^;()]+)\)\.applyOnTheRight\(([^;,]+), ([^;,]+), rot\);",
+                                 r"__CPROVER_assert(0 <= (\1) && (\1) <= S->m_T.rows, @Q@Eigen block assertion: topRows(n) within the matrix@Q@); __CPROVER_assert(0 <= (\2) && (\2) < S->m_T.cols && 0 <= (\3) && (\3) < S->m_T.cols, @Q@Eigen: applyOnTheRight(p, q) column indices in range@Q@); MAT_TOUCH(S->m_T);", {"max": 1}),
+                                ("rightU", r"m_U\.applyOnTheRight\(([^;,]+), ([^;,]+), rot\);",
+                                 r"__CPROVER_assert(0 <= (\1) && (\1) < S->m_U.cols && 0 <= (\2) && (\2) < S->m_U.cols, @Q@Eigen: applyOnTheRight(p, q) column indices in range@Q@); MAT_TOUCH(S->m_U);", {"max": 1})],
+                     contract=sp.frame_contract())
+    report["UpperHessenbergSchur::split_off_two_rows"] = R.fired
+    out.append(("schur.split_off_two_rows", types + t + sp.harness("h", alloc + "  Index iu = nondet_Index(); Scalar ex_shift = nondet_Scalar();", "S, iu, ex_shift"), "split_off_two_rows", ["Eigen index assertion", "applyOnThe"]))
+    # compute_shift
+    f = X.locate(SH, "compute_shift", cls="UpperHessenbergSchur")
+    sp = FSpec("compute_shift", "void", [("SC *", "S"), ("Index", "iu"), ("Index", "iter"), ("Scalar *", "ex_shift"), ("Scalar *", "shift_info")],
+               pre=inv + [("2 <= iu < n (the window has at least three rows: T(iu-1, iu-2) is read)", "2 <= iu && iu < S->m_n"), ("three-entry shift vector", "VEC_SIZE(shift_info) == 3"), ("Skolem", "0 <= g_q && g_q <= NMAXS")],
+               post=[("an exceptional shift is subtracted from EVERY diagonal entry of rows 0..iu (the whole leading block), or from none",
+                      "g_shifted_n == 0 || g_shifted_n == iu + 1")],
+               frame=["S->m_T.cell", "*ex_shift", "g_shifted_n"], frame_objs=["shift_info"], real=SH + ":compute_shift")
+    t, R = cgen.emit(f, "compute_shift", ret_c="void", self_type="SC", self_name="S", members=mem, param_types={"ex_shift": "REF", "shift_info": "Scalar *"},
+                     pre_rules=[("diag-sub", r"m_T\.coeffRef\(i, i\) -= ([^;]+);", r"{ T_(i, i) -= \1; g_shifted_n++; }", {"min": 0, "max": 2}),
+                                # the same update written as an Eigen expression over the leading diagonal entries
+                                ("diag-sub-eigen", r"m_T\.diagonal\(\)\.head\(([^;()]+)\)(?:\.array\(\))? -= ([^;]+);",
+                                 r"{ __CPROVER_assert(0 <= (\1) && (\1) <= S->m_T.rows, @Q@Eigen block assertion: diagonal().head(n) within the diagonal@Q@); g_shifted_n += (\1); MAT_TOUCH(S->m_T); }", {"min": 0, "max": 2}), coeff,
+                                ("si", r"shift_info\.coeff(?:Ref)?\((\d)\)", r"shift_info[\1]", {"min": 6}),
+                                ("setc", r"shift_info\.setConstant\(([^;]+)\);", r"shift_info[0] = (\1); shift_info[1] = (\1); shift_info[2] = (\1);", {"max": 1})],
+                     loop_contracts={k: v for k, v in {0: "__CPROVER_assigns(i, S->m_T.cell, g_shifted_n) __CPROVER_loop_invariant(0 <= i && i <= iu + 1 && g_shifted_n == i) __CPROVER_decreases(iu + 1 - i)",
+                                     1: "__CPROVER_assigns(i, S->m_T.cell, g_shifted_n) __CPROVER_loop_invariant(0 <= i && i <= iu + 1 && g_shifted_n == base_n + i) __CPROVER_decreases(iu + 1 - i)"}.items()
+                                     if k < len(re.findall(r"\bfor\s*\(", f.body))},
+                     contract=sp.frame_contract(["iter != 10 || 1"]), pre_body=" g_shifted_n = 0;")
+    if R.fired.get("pre:diag-sub", 0) + R.fired.get("pre:diag-sub-eigen", 0) != 2:
+        raise X.ExtractionBreak("compute_shift: expected two exceptional-shift updates of the diagonal, found %d" % (R.fired.get("pre:diag-sub", 0) + R.fired.get("pre:diag-sub-eigen", 0)))
+    t = t.replace("if (iter == 30)", "const Index base_n = g_shifted_n; if (iter == 30)")
+    report["UpperHessenbergSchur::compute_shift"] = R.fired
+    out.append(("schur.compute_shift", "Index g_shifted_n;\n" + types + t + sp.harness("h", alloc + "  Index iu = nondet_Index(), iter = nondet_Index(); Scalar ex = nondet_Scalar(); Scalar *ex_shift = &ex; Scalar *shift_info = VEC_NEW(3);",
+                                                                              "S, iu, iter, ex_shift, shift_info", pre_assume=["iter != 10 || iter != 30"]), "compute_shift", ["Eigen index assertion", "exceptional shift"]))
+    # init_francis_qr_step
+    f = X.locate(SH, "init_francis_qr_step", cls="UpperHessenbergSchur")
+    sp = FSpec("init_francis_qr_step", "void", [("SC *", "S"), ("Index", "il"), ("Index", "iu"), ("const Scalar *", "shift_info"), ("Index *", "im"), ("Scalar *", "first_householder_vec")],
+               pre=inv + [("0 <= il <= iu - 2, iu < n", "2 <= iu && iu < S->m_n && 0 <= il && il <= iu - 2"), ("three-entry vectors", "VEC_SIZE(shift_info) == 3 && VEC_SIZE(first_householder_vec) == 3")],
+               post=[("the Francis step starts inside the window: il <= im <= iu - 2", "il <= (*im) && (*im) <= iu - 2")],
+               frame=["S->m_T.cell", "*im"], frame_objs=["first_householder_vec"], real=SH + ":init_francis_qr_step")
+    t, R = cgen.emit(f, "init_francis_qr_step", ret_c="void", self_type="SC", self_name="S", members=mem,
+                     param_types={"shift_info": "const Scalar *", "im": "REF", "first_householder_vec": "Scalar *"},
+                     pre_rules=[coeff, epsr, ("alias", r"Vector3s& v = first_householder_vec;", "Scalar *v = first_householder_vec;", {"max": 1}),
+                                ("si", r"shift_info\.coeff\((\d)\)", r"shift_info[\1]", {"min": 3}), ("v", r"\bv\.coeff(?:Ref)?\((\d)\)", r"v[\1]", {"min": 5})],
+                     loop_contracts={0: "__CPROVER_assigns(*im, S->m_T.cell, __CPROVER_object_whole(first_householder_vec)) __CPROVER_loop_invariant(il <= (*im) && (*im) <= iu - 2) __CPROVER_decreases((*im) - il + 1)"},
+                     contract=sp.frame_contract())
+    report["UpperHessenbergSchur::init_francis_qr_step"] = R.fired
+    out.append(("schur.init_francis_qr_step", types + t + sp.harness("h", alloc + "  Index il = nondet_Index(), iu = nondet_Index(); const Scalar *shift_info = VEC_NEW(3); Index imv = nondet_Index(); Index *im = &imv; Scalar *first_householder_vec = VEC_NEW(3);",
+                                                                     "S, il, iu, shift_info, im, first_householder_vec"), "init_francis_qr_step", ["loop_invariant_step", "Eigen index assertion"]))
+    groups = []
+    for name, text, enf, exp in out:
+        groups.append(Group(name, BASE + text, "h", enforce=enf, solver="cadical", defines=["SCALAR_DOUBLE"], timeout=600, functions=[SH + ":" + enf], expect_classes=exp,
+                            note="unbounded in n: proves the index contract that schur.compute assumes for this helper (matrix entries nondeterministic)"))
+    return groups
+
+
 def build(tier):
     report = {}
-    groups = [tridiag(report), schur(report)]
+    groups = [tridiag(report), schur(report)] + schur_helpers(report)
     types, t, spec = hesseigen(report)
     h = spec.harness("h", "  HE Ev; HE *E = &Ev; E->m_n = nondet_Index(); __CPROVER_assume(0 <= E->m_n && E->m_n <= NMAXS); E->m_matT = MAT_NEW(E->m_n, E->m_n); E->kind = IVEC_NEW(E->m_n); E->m_eivalues = NULL;", "E")
     from props import skel
@@ -255,7 +339,7 @@ void h(void) { Scalar a = nondet_Scalar(), s = nondet_Scalar(); Scalar r = a * s
 
 def replay(g, o, assigns, path):
     from vlib import replay as RP
-    return RP.run_native(PROP, RP.src("C09_eigen_replay.cpp"))
+    return RP.run_native(PROP, RP.src("C09_eigen_replay.cpp"), cxxflags="-O2 -std=c++11")
 
 
 MANIFEST = {
